@@ -31,3 +31,21 @@ func init() {
 		return 0
 	}
 }
+
+func init() {
+	subcmds["asm"] = func(args []string) int {
+		for _, a := range args {
+			vm := ds.NewVM()
+			vm.Config.EnableDiceWoD, vm.Config.EnableDiceCoC, vm.Config.EnableDiceFate, vm.Config.EnableDiceDoubleCross = true, true, true, true
+			if err := vm.Parse(a); err != nil {
+				fmt.Printf("%q PARSE-ERR %v\n", a, err)
+				continue
+			}
+			fmt.Printf("%q\n", a)
+			for i, in := range vm.VerifCode() {
+				fmt.Printf("  %3d %-16s %v\n", i, in.Op, in.Operand)
+			}
+		}
+		return 0
+	}
+}
